@@ -1,6 +1,8 @@
 package c07lapack
 
 import (
+	"runtime"
+	"runtime/debug"
 	"sort"
 	"strings"
 	"testing"
@@ -56,7 +58,20 @@ func (e *env) run(f func()) {
 	for _, o := range e.ops {
 		o.snapshot()
 	}
-	e.res = vk.Call(f)
+	e.res = vk.Call(func() {
+		defer func() {
+			// Root-cause attribution: a runtime fault raised inside Dlarft (known
+			// defect: it slices v[(i+1)*ldv:] past the end when n == k and v is
+			// exactly minimal) is reported under its own key for every caller.
+			if r := recover(); r != nil {
+				if _, ok := r.(runtime.Error); ok && e.c.R != "Dlarft" && strings.Contains(string(debug.Stack()), "Implementation.Dlarft(") {
+					e.via = "/via-Dlarft"
+				}
+				panic(r)
+			}
+		}()
+		f()
+	})
 }
 
 // faultsOf lists the single faults applicable to the valid call c.
@@ -159,13 +174,16 @@ func checkValid(c Case) *vk.Failure {
 	if c.Loose != 0 {
 		vk.Class("valid/loose-unexamined-slices")
 	}
+	if c.Big > 1 {
+		vk.Class("valid/big")
+	}
 	minimal := c.X == 0 && c.LW == 0
 	if zero || minimal || c.Mode != "" {
-		vk.NonTrivial("lapack-valid-edge", c.R, c.Mode, c.Loose, zero, minimal, c.Fl, c.D)
+		vk.NonTrivial("lapack-valid-edge", c.R, c.Mode, c.Loose, zero, minimal, c.Fl, c.D, c.Big)
 	}
 	vk.Sample("lapack-valid-edge", c)
 	if e.res.Outcome != vk.Returned {
-		return vk.Failf("valid-call-"+e.res.Outcome.String()+"/"+c.R+e.tag, "%s on valid arguments (mode %q): %s", c.R, c.Mode, e.res.Text)
+		return vk.Failf("valid-call-"+e.res.Outcome.String()+"/"+c.R+e.tag+e.via, "%s on valid arguments (mode %q): %s", c.R, c.Mode, e.res.Text)
 	}
 	for _, o := range e.ops {
 		if d := o.diff(false, false); d != "" {
@@ -248,7 +266,28 @@ func drawValid(t *rapid.T) Case {
 		c.D[g.Intn(sp.nd)] = 0
 	}
 	c.Loose = g.Intn(3)
+	// a small fraction of large problems for the routines with blocked variants
+	if sc := bigScale[c.R]; sc > 0 && g.Intn(100) < 12 {
+		c.Big = sc
+		if sp.lw && c.Mode != "query" && g.Intn(3) > 0 {
+			c.LW = 6000 // enough workspace for the blocked algorithm
+		}
+	}
 	return c
+}
+
+// bigScale lists the routines that have a blocked code path (or a different
+// algorithm for larger orders) with the dimension multiplier that reaches it.
+var bigScale = map[string]int{
+	"Dgetrf": 24, "Dgetri": 24, "Dgetrs": 24, "Dgesv": 24,
+	"Dpotrf": 24, "Dpotri": 24, "Dpotrs": 24, "Dpbtrf": 12, "Dpbtrs": 12, "Dpstrf": 24,
+	"Dtrtri": 24, "Dlauum": 24, "Dtrtrs": 24,
+	"Dgeqrf": 24, "Dgelqf": 24, "Dgerqf": 24, "Dgeqp3": 24, "Dgels": 24,
+	"Dorgqr": 24, "Dorglq": 24, "Dorgql": 24, "Dormqr": 24, "Dormlq": 24, "Dlarfb": 8, "Dlarft": 8,
+	"Dsytrd": 24, "Dorgtr": 24, "Dsyev": 12, "Dsteqr": 8,
+	"Dgebrd": 24, "Dorgbr": 24, "Dormbr": 24, "Dgesvd": 8, "Dbdsqr": 8,
+	"Dgehrd": 24, "Dorghr": 24, "Dormhr": 24, "Dhseqr": 8, "Dgeev": 8, "Dtrevc3": 8, "Dgebal": 8,
+	"Dggsvd3": 4, "Dggsvp3": 4,
 }
 
 // TestLapackFault: exactly one argument of an otherwise valid call is made
